@@ -250,6 +250,19 @@ def _th_check(prop, kind, text, meta):
             return None if got == want else 'expected %d Parenthesis nodes, found %d' % (want, got)
         return None
     if prop == 'C12':
+        if kind == 'many-qualified-aliased':
+            # a select list of more than 10000 tokens: every item `q.c<i> AS a<i>` is one Identifier with the written parts
+            for i in meta['probe']:
+                ref = 'q.c%d AS a%d' % (i, i)
+                ids = [n for s in stmts for n in _nodes(s) if isinstance(n, sql.Identifier) and str(n) == ref]
+                if len(ids) != 1:
+                    return 'the written reference %r is not one Identifier (%d found)' % (ref, len(ids))
+                x = ids[0]
+                got = (x.get_alias(), x.get_real_name(), x.get_parent_name(), x.get_name(), x.has_alias())
+                want = ('a%d' % i, 'c%d' % i, 'q', 'a%d' % i, True)
+                if got != want:
+                    return 'accessors of %r return %r, written %r' % (ref, got, want)
+            return None
         if kind != 'deep-subquery-alias':
             return None
         ids = [n for s in stmts for n in _nodes(s) if isinstance(n, sql.Identifier) and str(n) == meta['ident']]
@@ -320,7 +333,7 @@ def _th_check(prop, kind, text, meta):
 
 
 _TH_KINDS = {
-    'C12': ('deep-subquery-alias',),
+    'C12': ('deep-subquery-alias', 'many-qualified-aliased'),
     'C18': ('many-tokens-cte-insert', 'many-tokens-in-list', 'deep-subquery-alias'),
     'C10': ('many-tokens-select', 'many-tokens-in-list'),
     'C06': ('many-tokens-select', 'many-tokens-cte-insert'),
